@@ -72,6 +72,27 @@ let do_op op gline =
    | OZero s -> Printf.printf "R %d ZERO %d\n" !k (int_of_z s));
   dump ()
 
+(* command tokens -> operation and the "caller's view before" text *)
+let parse_op toks =
+  match toks with
+  | "fill" :: _ :: r -> Some (Fill (quads (List.map int_of_string r)), "-")
+  | "prep" :: _ :: r -> Some (PrepareAll (quads (List.map int_of_string r)), "-")
+  | "compall" :: s :: [] ->
+    let allprep = List.for_all (fun (_, s) -> s <> Constructed) !g in
+    Some (ComputeAll (s <> "0"), (if allprep then "1" else "0"))
+  | c :: a :: b :: cc :: d :: r when List.mem c ["lookup"; "prepelem"; "compelem"; "eval"] ->
+    let q = (((int_of_string a, int_of_string b), int_of_string cc), int_of_string d) in
+    let op = (match c, r with
+        | "lookup", [] -> Lookup q
+        | "prepelem", [] -> PrepareElem q
+        | "compelem", [] -> ComputeElem q
+        | "eval", [n1; n2; n3] -> Eval (q, ((z_of_int (int_of_string n1), z_of_int (int_of_string n2)), z_of_int (int_of_string n3)))
+        | _ -> failwith "args") in
+    Some (op, ghost_of q)
+  | _ -> None
+
+let rec split_at n l = if n = 0 then ([], l) else match l with x :: r -> let (a, b) = split_at (n - 1) r in (x :: a, b) | [] -> failwith "split_at"
+
 let () =
   try
     while true do
@@ -86,20 +107,21 @@ let () =
       | "van" :: r -> (match quads (List.map int_of_string r) with [q] -> Hashtbl.replace vans q () | _ -> failwith "van")
       | "hist" :: [] -> st := init; g := []; k := 0; Hashtbl.reset reg; print_endline "H"
       | "srcfixed" :: [] -> Printf.printf "SRCFIXED %d\n" (if source_says_fixed then 1 else 0)
-      | "fill" :: _ :: r -> do_op (Fill (quads (List.map int_of_string r))) "-"
-      | "prep" :: _ :: r -> do_op (PrepareAll (quads (List.map int_of_string r))) "-"
-      | "compall" :: s :: [] ->
-        let allprep = List.for_all (fun (_, s) -> s <> Constructed) !g in
-        do_op (ComputeAll (s <> "0")) (if allprep then "1" else "0")
-      | c :: a :: b :: cc :: d :: r when List.mem c ["lookup"; "prepelem"; "compelem"; "eval"] ->
-        let q = (((int_of_string a, int_of_string b), int_of_string cc), int_of_string d) in
-        let op = (match c, r with
-            | "lookup", [] -> Lookup q
-            | "prepelem", [] -> PrepareElem q
-            | "compelem", [] -> ComputeElem q
-            | "eval", [n1; n2; n3] -> Eval (q, ((z_of_int (int_of_string n1), z_of_int (int_of_string n2)), z_of_int (int_of_string n3)))
-            | _ -> failwith "args") in
-        do_op op (ghost_of q)
-      | _ -> print_endline ("PARSE-ERROR " ^ line)
+      (* caller's view computed from an observed trace of the implementation:
+           ghist                                            new history, prints "GH"
+           gop <UNIT|THROWS|VAL> <nkeys> <4*nkeys ints> <operation tokens>     observed outcome and keys listed after the call *)
+      | "ghist" :: [] -> g := []; k := 0; print_endline "GH"
+      | "gop" :: res :: nk :: rest ->
+        let (keyints, optoks) = split_at (4 * int_of_string nk) rest in
+        let keys = quads (List.map int_of_string keyints) in
+        let st' = { emap = List.map (fun q -> (q, (0, bad_perm))) keys; nontriv = []; elems = [] } in
+        let o = if res = "THROWS" then OThrows StatusMismatch else OUnit in
+        (match parse_op optoks with
+         | Some (op, gline) -> incr k; Printf.printf "G %d %s\n" !k gline; g := gstep !g op st' o
+         | None -> print_endline ("PARSE-ERROR " ^ line))
+      | _ ->
+        (match parse_op toks with
+         | Some (op, gline) -> do_op op gline
+         | None -> print_endline ("PARSE-ERROR " ^ line))
     done
   with End_of_file -> ()
